@@ -2,7 +2,7 @@
 import ast
 import copy
 
-from ..astutil import calls_in, call_name, norm, try_fold, walk_no_nested
+from ..astutil import calls_in, call_name, norm, same_texts, try_fold, walk_no_nested
 from ..cfg import cfg_of
 from ..core import AnalysisError
 from ..exprnorm import conjuncts, linear
@@ -52,7 +52,7 @@ def run(repo, rep):
         ok = len(skip) == 1
         if ok:
             cj = [norm(v) for v in skip[0].test.values] if isinstance(skip[0].test, ast.BoolOp) and isinstance(skip[0].test.op, ast.Or) else []
-            ok = set(cj) == {"tens.purpose == TensorPurpose.Weights", "tens.purpose == TensorPurpose.FSBias", "tens.mem_type not in target_mem_type_set", "tens.mem_area != target_mem_area"}
+            ok = same_texts(cj, ["tens.purpose == TensorPurpose.Weights", "tens.purpose == TensorPurpose.FSBias", "tens.mem_type not in target_mem_type_set", "tens.mem_area != target_mem_area"])
         rep.check(ok, "C03-a", f"{LR}:extract_live_ranges_from_schedule", "a tensor is skipped only if it is a weight / bias stream or lives in another memory", norm(skip[0].test) if skip else "")
     outs = [l for l in f.body if isinstance(l, ast.For) and norm(l.iter) == "sg.output_tensors"]
     rep.check(len(outs) == 1 and calls_in(outs[0], "rng.mark_usage"), "C03-a", f"{LR}:extract_live_ranges_from_schedule", "subgraph outputs are marked live after the last operation", "")
